@@ -717,6 +717,21 @@ func c20classes() []c20class {
 		{"symlink-deep-out", "confine", all, func(r *rand.Rand, d func() []byte) []c20ent {
 			return []c20ent{c20d("d/"), {Name: "d/lnk", Kind: 's', Link: "../../../outside"}, c20f("d/lnk/pwned.txt", d())}
 		}},
+		// chains of links that are each textually inside the destination but resolve outside through an earlier link
+		{"symlink-chain-up", "confine", all, func(r *rand.Rand, d func() []byte) []c20ent {
+			return []c20ent{c20d("a/"), c20d("a/b/"), {Name: "a/b/up", Kind: 's', Link: "../.."}, {Name: "out", Kind: 's', Link: "a/b/up/.."},
+				c20f("out/pwned.txt", d())}
+		}},
+		{"symlink-chain-up-nodirs", "confine", all, func(r *rand.Rand, d func() []byte) []c20ent {
+			return []c20ent{{Name: "a/b/up", Kind: 's', Link: "../.."}, {Name: "out", Kind: 's', Link: "a/b/up/.."}, c20f("out/pwned.txt", d())}
+		}},
+		{"symlink-chain-self-dot", "confine", all, func(r *rand.Rand, d func() []byte) []c20ent {
+			return []c20ent{c20d("x/"), {Name: "x/here", Kind: 's', Link: ".."}, {Name: "x/esc", Kind: 's', Link: "here/.."}, c20f("x/esc/pwned.txt", d())}
+		}},
+		{"symlink-chain-three", "confine", all, func(r *rand.Rand, d func() []byte) []c20ent {
+			return []c20ent{c20d("p/"), c20d("p/q/"), c20d("p/q/r/"), {Name: "p/q/r/l1", Kind: 's', Link: "../../.."}, {Name: "p/l2", Kind: 's', Link: "q/r/l1/.."},
+				{Name: "l3", Kind: 's', Link: "p/l2/../outside"}, c20f("l3/victim.txt", d()), c20f("p/l2/pwned.txt", d())}
+		}},
 		{"symlink-parent", "confine", all, func(r *rand.Rand, d func() []byte) []c20ent {
 			return []c20ent{{Name: "up", Kind: 's', Link: ".."}, c20f("up/evil.txt", d())}
 		}},
